@@ -12,7 +12,8 @@
 From ZK Require Import Cl ClArith ClSig ClMore ClGroup ClBoudot ModelLemmas ClSpok ClSpok2 ClSpok3 ClDraws ClZk.
 From ZK Require Import ClTies.
 From ZK Require Import ClUpdate.
-From ZK Require Import ClSound ClSound2.
+From ZK Require Import ClSound ClSound2 ClOrder.
+From Coq Require Import Permutation.
 From Coq Require Import List. Import ListNotations.
 
 Theorem C14_cl_blind_sign_gated :
@@ -551,3 +552,19 @@ Zdiv.eqm n2
 (exists a b : list Z,
    a <> b /\ hash_int (str_cat a) = hash_int (str_cat b)))%Z).
 Print Assumptions C14_nisp2_rigid.
+
+(* the issuer's extension pairs the k-th revealed position with the k-th revealed value: any other listing order extends to the same residue *)
+Theorem C14_extension_order_irrelevant :
+  forall n bases msgs l l' v,
+  (0 < n)%Z -> (0 <= v)%Z -> Permutation l l' ->
+  Forall (fun j => (N.to_nat j < length bases)%nat /\ (N.to_nat j < length msgs)%nat /\ (0 <= at_ msgs j)%Z) l ->
+  exists r r', extend_loop v bases n l (map (at_ msgs) l) = Ok r /\
+               extend_loop v bases n l' (map (at_ msgs) l') = Ok r' /\ (r mod n = r' mod n)%Z.
+Proof. exact extension_order_irrelevant. Qed.
+Check (C14_extension_order_irrelevant :
+  forall n bases msgs l l' v,
+  (0 < n)%Z -> (0 <= v)%Z -> Permutation l l' ->
+  Forall (fun j => (N.to_nat j < length bases)%nat /\ (N.to_nat j < length msgs)%nat /\ (0 <= at_ msgs j)%Z) l ->
+  exists r r', extend_loop v bases n l (map (at_ msgs) l) = Ok r /\
+               extend_loop v bases n l' (map (at_ msgs) l') = Ok r' /\ (r mod n = r' mod n)%Z).
+Print Assumptions C14_extension_order_irrelevant.
